@@ -281,6 +281,11 @@ class Check:
         if os.path.exists(resf):
             os.remove(resf)
         e = {"TRACE_FILE": trace_file, "RESULT_FILE": resf}
+        if not ("\n" in cfg or cfg.startswith("SPECIFICATION") or cfg.startswith("INIT")):
+            with open(os.path.join(self.specdir, cfg)) as f:
+                cfg = f.read()
+        if "VIEW" not in cfg:
+            cfg = cfg.rstrip("\n") + "\nVIEW TraceView\n"       # one state per event: fingerprint the position only
         if env:
             e.update(env)
         r = self.tlc(module, cfg, env=e, workers=1, timeout=timeout, tag=tag)
